@@ -1,5 +1,5 @@
 // auto-generated: "lalrpop 0.23.1"
-// sha3: 41d14a280c899b838f87751e4e82a35cc94e97c9d230b8294d044b6c4b6b859c
+// sha3: be6fa63430dae5a71ecc185be69aabfb5e2d2a18a97244b14e9023e32e46c3eb
 use crate::rt::*;
 #[allow(unused_extern_crates)]
 extern crate lalrpop_util as __lalrpop_util;
@@ -739,13 +739,13 @@ fn __action2<
 fn __action3<
 >(
     (_, l, _): (i64, i64, i64),
+    (_, pL0, _): (i64, i64, i64),
     (_, c0, _): (i64, Tree, i64),
     (_, c1, _): (i64, Tree, i64),
-    (_, pL2, _): (i64, i64, i64),
     (_, r, _): (i64, i64, i64),
 ) -> Tree
 {
-    { probe("Ss#1", 2, 'L', pL2); node("Ss#1", l, r, vec![Tree::from(c0), Tree::from(c1)]) }
+    { probe("Ss#1", 0, 'L', pL0); node("Ss#1", l, r, vec![Tree::from(c0), Tree::from(c1)]) }
 }
 
 #[allow(clippy::too_many_arguments, clippy::needless_lifetimes, clippy::just_underscores_and_digits, clippy::extra_unused_type_parameters)]
@@ -756,46 +756,48 @@ fn __action4<
     (_, c0, _): (i64, Tok, i64),
     (_, c1, _): (i64, Tok, i64),
     (_, c2, _): (i64, Tree, i64),
-    (_, pR3, _): (i64, i64, i64),
     (_, c3, _): (i64, Tok, i64),
+    (_, pR4, _): (i64, i64, i64),
     (_, r, _): (i64, i64, i64),
 ) -> Tree
 {
-    { probe("St#0", 0, 'R', pR0); probe("St#0", 3, 'R', pR3); node("St#0", l, r, vec![Tree::from(c0), Tree::from(c1), Tree::from(c2), Tree::from(c3)]) }
+    { probe("St#0", 0, 'R', pR0); probe("St#0", 4, 'R', pR4); node("St#0", l, r, vec![Tree::from(c0), Tree::from(c1), Tree::from(c2), Tree::from(c3)]) }
 }
 
 #[allow(clippy::too_many_arguments, clippy::needless_lifetimes, clippy::just_underscores_and_digits, clippy::extra_unused_type_parameters)]
 fn __action5<
 >(
     (_, l, _): (i64, i64, i64),
+    (_, pL0, _): (i64, i64, i64),
     (_, c0, _): (i64, Tok, i64),
+    (_, pL1, _): (i64, i64, i64),
     (_, c1, _): (i64, Tree, i64),
-    (_, pR2, _): (i64, i64, i64),
     (_, c2, _): (i64, Tok, i64),
     (_, r, _): (i64, i64, i64),
 ) -> Tree
 {
-    { probe("St#1", 2, 'R', pR2); node("St#1", l, r, vec![Tree::from(c0), Tree::from(c1), Tree::from(c2)]) }
+    { probe("St#1", 0, 'L', pL0); probe("St#1", 1, 'L', pL1); node("St#1", l, r, vec![Tree::from(c0), Tree::from(c1), Tree::from(c2)]) }
 }
 
 #[allow(clippy::too_many_arguments, clippy::needless_lifetimes, clippy::just_underscores_and_digits, clippy::extra_unused_type_parameters)]
 fn __action6<
 >(
     (_, l, _): (i64, i64, i64),
+    (_, pL0, _): (i64, i64, i64),
     (_, c0, _): (i64, Tok, i64),
     (_, pL1, _): (i64, i64, i64),
     (_, c1, _): (i64, Tok, i64),
     (_, c2, _): (i64, Tree, i64),
     (_, c3, _): (i64, Tok, i64),
     (_, c4, _): (i64, Tree, i64),
+    (_, pR5, _): (i64, i64, i64),
     (_, c5, _): (i64, Tok, i64),
-    (_, pR6, _): (i64, i64, i64),
+    (_, pL6, _): (i64, i64, i64),
     (_, c6, _): (i64, Tree, i64),
-    (_, pL7, _): (i64, i64, i64),
     (_, r, _): (i64, i64, i64),
 ) -> Tree
 {
-    { probe("St#2", 1, 'L', pL1); probe("St#2", 6, 'R', pR6); probe("St#2", 7, 'L', pL7); node("St#2", l, r, vec![Tree::from(c0), Tree::from(c1), Tree::from(c2), Tree::from(c3), Tree::from(c4), Tree::from(c5), Tree::from(c6)]) }
+    { probe("St#2", 0, 'L', pL0); probe("St#2", 1, 'L', pL1); probe("St#2", 5, 'R', pR5); probe("St#2", 6, 'L', pL6); node("St#2", l, r, vec![Tree::from(c0), Tree::from(c1), Tree::from(c2), Tree::from(c3), Tree::from(c4), Tree::from(c5), Tree::from(c6)]) }
 }
 
 #[allow(clippy::too_many_arguments, clippy::needless_lifetimes, clippy::just_underscores_and_digits, clippy::extra_unused_type_parameters)]
@@ -814,13 +816,12 @@ fn __action8<
 >(
     (_, l, _): (i64, i64, i64),
     (_, c0, _): (i64, Tok, i64),
-    (_, pL1, _): (i64, i64, i64),
     (_, c1, _): (i64, Tree, i64),
     (_, c2, _): (i64, Tok, i64),
     (_, r, _): (i64, i64, i64),
 ) -> Tree
 {
-    { probe("Ex#1", 1, 'L', pL1); node("Ex#1", l, r, vec![Tree::from(c0), Tree::from(c1), Tree::from(c2)]) }
+    node("Ex#1", l, r, vec![Tree::from(c0), Tree::from(c1), Tree::from(c2)])
 }
 
 #[allow(clippy::needless_lifetimes, clippy::clone_on_copy)]
@@ -877,22 +878,14 @@ fn __action12<
 {
     let __start0 = __0.0.clone();
     let __end0 = __0.0.clone();
-    let __start1 = __0.2.clone();
-    let __end1 = __1.0.clone();
     let __temp0 = __action10(
         &__start0,
         &__end0,
     );
     let __temp0 = (__start0, __temp0, __end0);
-    let __temp1 = __action10(
-        &__start1,
-        &__end1,
-    );
-    let __temp1 = (__start1, __temp1, __end1);
     __action8(
         __temp0,
         __0,
-        __temp1,
         __1,
         __2,
         __3,
@@ -960,8 +953,8 @@ fn __action15<
 {
     let __start0 = __0.0.clone();
     let __end0 = __0.0.clone();
-    let __start1 = __1.2.clone();
-    let __end1 = __2.0.clone();
+    let __start1 = __0.0.clone();
+    let __end1 = __0.0.clone();
     let __temp0 = __action10(
         &__start0,
         &__end0,
@@ -974,9 +967,9 @@ fn __action15<
     let __temp1 = (__start1, __temp1, __end1);
     __action3(
         __temp0,
+        __temp1,
         __0,
         __1,
-        __temp1,
         __2,
     )
 }
@@ -989,8 +982,8 @@ fn __action16<
     __1: (i64, Tok, i64),
     __2: (i64, Tok, i64),
     __3: (i64, Tree, i64),
-    __4: (i64, i64, i64),
-    __5: (i64, Tok, i64),
+    __4: (i64, Tok, i64),
+    __5: (i64, i64, i64),
     __6: (i64, i64, i64),
 ) -> Tree
 {
@@ -1019,49 +1012,16 @@ fn __action17<
 >(
     __0: (i64, Tok, i64),
     __1: (i64, Tree, i64),
-    __2: (i64, i64, i64),
-    __3: (i64, Tok, i64),
-    __4: (i64, i64, i64),
+    __2: (i64, Tok, i64),
+    __3: (i64, i64, i64),
 ) -> Tree
 {
     let __start0 = __0.0.clone();
     let __end0 = __0.0.clone();
-    let __temp0 = __action10(
-        &__start0,
-        &__end0,
-    );
-    let __temp0 = (__start0, __temp0, __end0);
-    __action5(
-        __temp0,
-        __0,
-        __1,
-        __2,
-        __3,
-        __4,
-    )
-}
-
-#[allow(clippy::too_many_arguments, clippy::needless_lifetimes,
-    clippy::just_underscores_and_digits, clippy::clone_on_copy, clippy::unit_arg)]
-fn __action18<
->(
-    __0: (i64, Tok, i64),
-    __1: (i64, Tok, i64),
-    __2: (i64, Tree, i64),
-    __3: (i64, Tok, i64),
-    __4: (i64, Tree, i64),
-    __5: (i64, Tok, i64),
-    __6: (i64, i64, i64),
-    __7: (i64, Tree, i64),
-    __8: (i64, i64, i64),
-) -> Tree
-{
-    let __start0 = __0.0.clone();
-    let __end0 = __0.0.clone();
-    let __start1 = __0.2.clone();
-    let __end1 = __1.0.clone();
-    let __start2 = __7.2.clone();
-    let __end2 = __8.0.clone();
+    let __start1 = __0.0.clone();
+    let __end1 = __0.0.clone();
+    let __start2 = __0.2.clone();
+    let __end2 = __1.0.clone();
     let __temp0 = __action10(
         &__start0,
         &__end0,
@@ -1077,18 +1037,73 @@ fn __action18<
         &__end2,
     );
     let __temp2 = (__start2, __temp2, __end2);
+    __action5(
+        __temp0,
+        __temp1,
+        __0,
+        __temp2,
+        __1,
+        __2,
+        __3,
+    )
+}
+
+#[allow(clippy::too_many_arguments, clippy::needless_lifetimes,
+    clippy::just_underscores_and_digits, clippy::clone_on_copy, clippy::unit_arg)]
+fn __action18<
+>(
+    __0: (i64, Tok, i64),
+    __1: (i64, Tok, i64),
+    __2: (i64, Tree, i64),
+    __3: (i64, Tok, i64),
+    __4: (i64, Tree, i64),
+    __5: (i64, i64, i64),
+    __6: (i64, Tok, i64),
+    __7: (i64, Tree, i64),
+    __8: (i64, i64, i64),
+) -> Tree
+{
+    let __start0 = __0.0.clone();
+    let __end0 = __0.0.clone();
+    let __start1 = __0.0.clone();
+    let __end1 = __0.0.clone();
+    let __start2 = __0.2.clone();
+    let __end2 = __1.0.clone();
+    let __start3 = __6.2.clone();
+    let __end3 = __7.0.clone();
+    let __temp0 = __action10(
+        &__start0,
+        &__end0,
+    );
+    let __temp0 = (__start0, __temp0, __end0);
+    let __temp1 = __action10(
+        &__start1,
+        &__end1,
+    );
+    let __temp1 = (__start1, __temp1, __end1);
+    let __temp2 = __action10(
+        &__start2,
+        &__end2,
+    );
+    let __temp2 = (__start2, __temp2, __end2);
+    let __temp3 = __action10(
+        &__start3,
+        &__end3,
+    );
+    let __temp3 = (__start3, __temp3, __end3);
     __action6(
         __temp0,
-        __0,
         __temp1,
+        __0,
+        __temp2,
         __1,
         __2,
         __3,
         __4,
         __5,
         __6,
+        __temp3,
         __7,
-        __temp2,
         __8,
     )
 }
@@ -1211,8 +1226,8 @@ fn __action24<
 {
     let __start0 = __0.0.clone();
     let __end0 = __0.0.clone();
-    let __start1 = __2.2.clone();
-    let __end1 = __3.0.clone();
+    let __start1 = __3.2.clone();
+    let __end1 = __3.2.clone();
     let __start2 = __3.2.clone();
     let __end2 = __3.2.clone();
     let __temp0 = __action9(
@@ -1235,8 +1250,8 @@ fn __action24<
         __0,
         __1,
         __2,
-        __temp1,
         __3,
+        __temp1,
         __temp2,
     )
 }
@@ -1250,26 +1265,18 @@ fn __action25<
     __2: (i64, Tok, i64),
 ) -> Tree
 {
-    let __start0 = __1.2.clone();
-    let __end0 = __2.0.clone();
-    let __start1 = __2.2.clone();
-    let __end1 = __2.2.clone();
+    let __start0 = __2.2.clone();
+    let __end0 = __2.2.clone();
     let __temp0 = __action9(
         &__start0,
         &__end0,
     );
     let __temp0 = (__start0, __temp0, __end0);
-    let __temp1 = __action9(
-        &__start1,
-        &__end1,
-    );
-    let __temp1 = (__start1, __temp1, __end1);
     __action17(
         __0,
         __1,
-        __temp0,
         __2,
-        __temp1,
+        __temp0,
     )
 }
 
@@ -1286,8 +1293,8 @@ fn __action26<
     __6: (i64, Tree, i64),
 ) -> Tree
 {
-    let __start0 = __5.2.clone();
-    let __end0 = __6.0.clone();
+    let __start0 = __4.2.clone();
+    let __end0 = __5.0.clone();
     let __start1 = __6.2.clone();
     let __end1 = __6.2.clone();
     let __temp0 = __action9(
@@ -1306,8 +1313,8 @@ fn __action26<
         __2,
         __3,
         __4,
-        __5,
         __temp0,
+        __5,
         __6,
         __temp1,
     )
